@@ -91,6 +91,7 @@ fn main() {
             props_sim::dump(file);
             0
         }
+        ["--minimise", inp, out, trying] => sup::minimise_file(inp, out, trying, &engine_for),
         ["--replay", file] => sup::replay_file(file, false, &engine_for),
         ["--replay", file, "--quiet"] => sup::replay_file(file, true, &engine_for),
         _ => {
